@@ -53,14 +53,22 @@ async def run_config(ctx, tree, kind, seqs, rnd, results):
             n = 120000
             await oc.send(peers.response_head(200, 'OK', [('Content-Length', str(n)), ('Cache-Control', 'max-age=3600'), ('Date', peers.http_date())]) + b'j' * n)
             return False
+        inm, grow = q.head.get('If-None-Match'), q.head.get('X-Verif-Reval')
+        if inm and grow is not None and inm == getattr(kr, 'etag', None):
+            # the stored version is still current: 304 with a header block that is `grow` bytes larger than before
+            kr.n304 = getattr(kr, 'n304', 0) + 1
+            await oc.send(peers.response_head(304, 'Not Modified', [('ETag', kr.etag), ('Cache-Control', 'max-age=3600'), ('Date', peers.http_date()),
+                                                                      ('X-Verif-Pad', 'p' * int(grow)), ('X-Verif-Origin', '1')]))
+            return False
         _ver[0] += 1
         v = _ver[0]
+        kr.etag = '"v%d"' % v
         body = peers.body_bytes(v, kr.size)
         abort = q.head.get('X-Verif-Abort') == '1' and kr.size > 1
         slow = q.head.get('X-Verif-Slow') == '1'
         kr.ev.append({'e': 'OResp', 'v': v, 'key': kr.key, 'status': kr.status, 'len': kr.size})
         head = peers.response_head(kr.status, 'X', [('Content-Length', str(kr.size)), ('Cache-Control', 'max-age=3600'), ('Date', peers.http_date()),
-                                                    ('X-Verif-Version', str(v)), ('X-Verif-Canary', str(v)), ('X-Verif-Origin', '1')])
+                                                    ('X-Verif-Version', str(v)), ('X-Verif-Canary', str(v)), ('X-Verif-Origin', '1'), ('ETag', kr.etag)])
         if abort:
             await oc.send(head + body[:kr.size // 2])
             await asyncio.sleep(0.03)
@@ -108,6 +116,9 @@ async def run_config(ctx, tree, kind, seqs, rnd, results):
                 await t1
             elif op == 'reload':
                 await get(kr, [('Cache-Control', 'no-cache')])
+            elif op == 'reval':
+                await get(kr, [('Cache-Control', 'max-age=0'), ('X-Verif-Reval', str(kr.rnd.choice([0, 300, 6000, 20000])))])
+                await get(kr)
             elif op == 'pair':
                 await asyncio.gather(get(kr), get(kr))
             elif op == 'abortfetch':
@@ -165,11 +176,12 @@ def run(ctx):
     ctx.cov['cache_hits_observed'] = hits
     ctx.cov['hits_by_store'] = {k: sum(1 for kk, kr in results if kk == k for e in kr.ev if e['e'] == 'CResp' and ';hit' in e.get('cs', '')) for k in kinds}
     ctx.cov['stores'] = kinds
+    ctx.cov['revalidations_answered_304'] = sum(getattr(kr, 'n304', 0) for _, kr in results)
     if skipped:
         ctx.notes += skipped
     for kind, kr in results[:2]:
         ctx.sample({'store': kind, 'ops': kr.ops, 'size': kr.size, 'events': kr.ev[:8]})
-    ctx.cov['rule'] = ('operation sequences = all words of length 4 over {get, getslow(+overlapping reader), reload, pair, pressure, abortfetch} explored by '
+    ctx.cov['rule'] = ('operation sequences = all words of length 4 over {get, getslow(+overlapping reader), reload, pair, pressure, abortfetch, reval(304 with a larger header block, then get)} explored by '
                        'TLC on HitsScen.tla; each realised on its own URL (8 URLs in flight concurrently) per store type with object sizes on the page/slot '
                        'boundary lattice; one history per URL validated by TLC against Hits.tla. Non-trivial = distinct (store, sequence, size, status).')
     ctx.assumptions += ['body bytes projected to (version, length, intact) by the driver', 'SMP shared memory cache is covered by C19; diskd only in the thorough tier']
